@@ -476,21 +476,74 @@ theorem newLayer_complete {env : Env} (hinj : HashInj env) {st : Store} (hb : Bl
   subst this
   exact ⟨c', h1, rfl, rfl⟩
 
-/-- working-list invariant of `createModel` -/
-structure WL (env : Env) (st : Store) (ls : List Layer) (μs : Media → Prop) : Prop where
+
+theorem layerRemove_mans (env : Env) (st : Store) (d : Digest) : (layerRemove env st d).mans = st.mans := by
+  unfold layerRemove; split <;> rfl
+
+theorem removeLayers_mans (env : Env) (ls : List Layer) (st : Store) : (removeLayers env st ls).mans = st.mans := by
+  induction ls generalizing st with
+  | nil => rfl
+  | cons l t ih =>
+    unfold removeLayers
+    simp only [List.foldl]
+    exact (ih (layerRemove env st l.digest)).trans (layerRemove_mans env st l.digest)
+
+theorem layerRemove_blob_keep {env : Env} {st : Store} {d : Digest} {k : String}
+    (h : env.inUse st d = true ∨ d.key ≠ k) : (layerRemove env st d).blob k = st.blob k := by
+  unfold layerRemove
+  split
+  · rfl
+  · rename_i hu
+    rw [blob_adel]
+    rcases h with h | h
+    · exact absurd h hu
+    · have : ¬ k = d.key := fun e => h e.symm
+      simp [this]
+
+theorem removeLayers_blob_keep {env : Env} (R : List Layer) {st : Store} {k : String}
+    (h : ∀ a ∈ R, env.inUse st a.digest = true ∨ a.digest.key ≠ k) :
+    (removeLayers env st R).blob k = st.blob k := by
+  induction R generalizing st with
+  | nil => rfl
+  | cons a t ih =>
+    unfold removeLayers
+    simp only [List.foldl]
+    have h1 := layerRemove_blob_keep (h a (by simp))
+    have := ih (st := layerRemove env st a.digest) (fun x hx => by
+      rw [inUse_congr (layerRemove_mans env st a.digest)]
+      exact h x (by simp [hx]))
+    unfold removeLayers at this
+    rw [this, h1]
+
+theorem mem_removable {env : Env} {ls : List Layer} {μ : Media} {a : Layer} (h : a ∈ removable env ls μ) :
+    a ∈ ls ∧ a.media = μ ∧
+    (env.v.fixKeep = true → ∀ x ∈ ls, x.media ≠ μ → x.digest.key ≠ a.digest.key) := by
+  unfold removable at h
+  simp only [List.mem_filter, Bool.and_eq_true, decide_eq_true_eq, Bool.or_eq_true, Bool.not_eq_true'] at h
+  obtain ⟨h1, h2, h3⟩ := h
+  refine ⟨h1, h2, fun hk x hx hm hkey => ?_⟩
+  rcases h3 with h3 | h3
+  · rw [hk] at h3; cases h3
+  · have : (ls.any fun x => decide (x.media ≠ μ) && x.digest.key == a.digest.key) = true := by
+      rw [List.any_eq_true]
+      exact ⟨x, hx, by simp [hm, hkey]⟩
+    rw [this] at h3; cases h3
+
+/-- working-list invariant of `createModel`.  `base0` is the list `createModel` started from and `μs` the
+    media types whose layers may still be dropped.
+    `safe`: a layer that may still be dropped is in use by a stored manifest, or no layer of another media type
+    in the list is backed by the same blob — or N2 is repaired and `removable` itself takes care of it. -/
+structure WL (env : Env) (st : Store) (base0 ls : List Layer) (μs : Media → Prop) : Prop where
   complete : ∀ l ∈ ls, Complete env st l
   gd : ∀ l ∈ ls, GD env l.digest
-  ref : ∀ l ∈ ls, μs l.media → env.inUse st l.digest = true
+  safe : ∀ a ∈ ls, μs a.media → env.v.fixKeep = true ∨ env.inUse st a.digest = true ∨
+    ∀ x ∈ ls, x.media ≠ a.media → x.digest.key ≠ a.digest.key
+  orig : ∀ a ∈ ls, μs a.media → a ∈ base0
 
-theorem replaceLayer_fst (env : Env) (st : Store) (ls : List Layer) (media : Media) (c : Bytes)
-    (href : ∀ l ∈ ls, l.media = media → env.inUse st l.digest = true) :
-    (replaceLayer env st ls media c).1 = putBlob env st c := by
-  unfold replaceLayer newLayer
-  simp only
-  rw [removeLayers_noop]
-  intro l hl
-  simp only [List.mem_filter, decide_eq_true_eq] at hl
-  exact href l hl.1 hl.2
+/-- what has to be known about a content `c` that is about to be stored while layers of the media types
+    `μs'` may still be dropped later -/
+def Fresh (env : Env) (st : Store) (ls : List Layer) (μs' : Media → Prop) (c : Bytes) : Prop :=
+  ∀ a ∈ ls, μs' a.media → env.v.fixKeep = true ∨ env.inUse st a.digest = true ∨ env.hash c ≠ a.digest.key
 
 theorem replaceLayer_snd (env : Env) (st : Store) (ls : List Layer) (media : Media) (c : Bytes) :
     (replaceLayer env st ls media c).2 =
@@ -498,101 +551,230 @@ theorem replaceLayer_snd (env : Env) (st : Store) (ls : List Layer) (media : Med
   unfold replaceLayer newLayer
   rfl
 
-theorem replaceLayer_WL {env : Env} (hinj : HashInj env) {st : Store} {ls : List Layer} {μs : Media → Prop}
-    (hb : BlobsOk env st) (w : WL env st ls μs) (media : Media) (hμ : μs media) (c : Bytes) :
-    (replaceLayer env st ls media c).1 = putBlob env st c ∧
-    WL env (putBlob env st c) (replaceLayer env st ls media c).2 (fun x => μs x ∧ x ≠ media) := by
-  have h1 := replaceLayer_fst env st ls media c (fun l hl hm => w.ref l hl (hm ▸ hμ))
-  refine ⟨h1, ?_⟩
-  rw [replaceLayer_snd]
-  refine ⟨?_, ?_, ?_⟩
+theorem replaceLayer_fst (env : Env) (st : Store) (ls : List Layer) (media : Media) (c : Bytes) :
+    (replaceLayer env st ls media c).1 = putBlob env (removeLayers env st (removable env ls media)) c := by
+  unfold replaceLayer newLayer
+  rfl
+
+/-- dropping the layers of one media type: a `BlobStep` that leaves the kept layers complete -/
+theorem dropLayers_spec {env : Env} {st : Store} {base0 ls : List Layer} {μs : Media → Prop}
+    (hg : Guard env st) (w : WL env st base0 ls μs) (media : Media) (hμ : μs media) :
+    BlobStep env st (removeLayers env st (removable env ls media)) ∧
+    ∀ x ∈ ls, x.media ≠ media → Complete env (removeLayers env st (removable env ls media)) x := by
+  refine ⟨removeLayers_step env _ hg (fun l hl => w.gd l (mem_removable hl).1), ?_⟩
+  intro x hx hm
+  refine (w.complete x hx).mono_blob (fun c hc => ?_)
+  rw [removeLayers_blob_keep]
+  · exact hc
+  · intro a ha
+    obtain ⟨ha1, ha2, ha3⟩ := mem_removable ha
+    rcases w.safe a ha1 (ha2 ▸ hμ) with hk | hu | hap
+    · exact Or.inr (fun e => ha3 hk x hx hm e.symm)
+    · exact Or.inl hu
+    · exact Or.inr (fun e => hap x hx (ha2 ▸ hm) e.symm)
+
+theorem replaceLayer_WL {env : Env} (hinj : HashInj env) {st : Store} {base0 ls : List Layer}
+    {μs μs' : Media → Prop} (hb : BlobsOk env st) (hg : Guard env st) (w : WL env st base0 ls μs)
+    (media : Media) (hμ : μs media) (hsub : ∀ x, μs' x → μs x ∧ x ≠ media) (c : Bytes)
+    (hc : Fresh env st ls μs' c) :
+    BlobStep env st (replaceLayer env st ls media c).1 ∧
+    WL env (replaceLayer env st ls media c).1 base0 (replaceLayer env st ls media c).2 μs' := by
+  obtain ⟨s1, k1⟩ := dropLayers_spec hg w media hμ
+  rw [replaceLayer_fst, replaceLayer_snd]
+  have hb1 := s1.blobsOk hb
+  have s2 := putBlob_step env (removeLayers env st (removable env ls media)) c
+  have s12 := s1.trans s2
+  refine ⟨s12, ?_, ?_, ?_, ?_⟩
   · intro l hl
-    simp only [List.mem_append, List.mem_filter, List.mem_singleton] at hl
+    simp only [List.mem_append, List.mem_filter, List.mem_singleton, decide_eq_true_eq] at hl
     rcases hl with hl | hl
-    · exact (w.complete l hl.1).putBlob c
-    · subst hl; exact newLayer_complete hinj hb c media
+    · exact (k1 l hl.1 hl.2).putBlob c
+    · subst hl; exact newLayer_complete hinj hb1 c media
   · intro l hl
     simp only [List.mem_append, List.mem_filter, List.mem_singleton] at hl
     rcases hl with hl | hl
     · exact w.gd l hl.1
     · subst hl; exact Or.inr rfl
-  · intro l hl hm
-    simp only [List.mem_append, List.mem_filter, List.mem_singleton] at hl
-    rw [inUse_congr (putBlob_mans env st c)]
-    rcases hl with hl | hl
-    · exact w.ref l hl.1 hm.1
-    · subst hl; exact absurd rfl hm.2
+  · intro a ha hm
+    simp only [List.mem_append, List.mem_filter, List.mem_singleton, decide_eq_true_eq] at ha
+    rcases ha with ha | ha
+    · rw [inUse_congr s12.mans]
+      rcases w.safe a ha.1 (hsub _ hm).1 with hk | hu | hap
+      · exact Or.inl hk
+      · exact Or.inr (Or.inl hu)
+      · rcases hc a ha.1 hm with hk | hu | hne
+        · exact Or.inl hk
+        · exact Or.inr (Or.inl hu)
+        · refine Or.inr (Or.inr (fun x hx hxm => ?_))
+          simp only [List.mem_append, List.mem_filter, List.mem_singleton, decide_eq_true_eq] at hx
+          rcases hx with hx | hx
+          · exact hap x hx.1 hxm
+          · subst hx; exact hne
+    · subst ha; exact absurd rfl (hsub _ hm).2
+  · intro a ha hm
+    simp only [List.mem_append, List.mem_filter, List.mem_singleton, decide_eq_true_eq] at ha
+    rcases ha with ha | ha
+    · exact w.orig a ha.1 (hsub _ hm).1
+    · subst ha; exact absurd rfl (hsub _ hm).2
 
-theorem WL.weaken {env : Env} {st : Store} {ls : List Layer} {μs μs' : Media → Prop} (w : WL env st ls μs)
-    (h : ∀ x, μs' x → μs x) : WL env st ls μs' :=
-  ⟨w.complete, w.gd, fun l hl hm => w.ref l hl (h _ hm)⟩
+theorem WL.weaken {env : Env} {st : Store} {base0 ls : List Layer} {μs μs' : Media → Prop}
+    (w : WL env st base0 ls μs) (h : ∀ x, μs' x → μs x) : WL env st base0 ls μs' :=
+  ⟨w.complete, w.gd, fun a ha hm => w.safe a ha (h _ hm), fun a ha hm => w.orig a ha (h _ hm)⟩
 
-theorem stepTemplate_spec {env : Env} (hinj : HashInj env) {st : Store} {ls : List Layer} {μs : Media → Prop}
-    (hb : BlobsOk env st) (w : WL env st ls μs) (hμ : μs .template) (t : Option (Bytes × Bool)) :
+
+theorem stepTemplate_spec {env : Env} (hinj : HashInj env) {st : Store} {base0 ls : List Layer}
+    {μs : Media → Prop} (hb : BlobsOk env st) (hg : Guard env st) (w : WL env st base0 ls μs)
+    (hμ : μs .template) (t : Option (Bytes × Bool))
+    (hc : ∀ c ok, t = some (c, ok) → Fresh env st ls (fun x => μs x ∧ x ≠ .template) c) :
     BlobStep env st (stepTemplate env st ls t).1 ∧
     ∀ ls', (stepTemplate env st ls t).2 = some ls' →
-      WL env (stepTemplate env st ls t).1 ls' (fun x => μs x ∧ x ≠ .template) := by
+      WL env (stepTemplate env st ls t).1 base0 ls' (fun x => μs x ∧ x ≠ .template) := by
   cases t with
   | none =>
     simp only [stepTemplate]
     exact ⟨BlobStep.refl env st, fun ls' h => by injection h with e; subst e; exact w.weaken (fun _ h => h.1)⟩
   | some tb =>
-    obtain ⟨t, ok⟩ := tb
+    obtain ⟨c, ok⟩ := tb
     cases ok with
     | false =>
       simp only [stepTemplate, Bool.false_eq_true, if_false]
-      rw [removeLayers_noop]
-      · exact ⟨BlobStep.refl env st, fun ls' h => by cases h⟩
-      · intro l hl
-        simp only [List.mem_filter, decide_eq_true_eq] at hl
-        exact w.ref l hl.1 (hl.2 ▸ hμ)
+      exact ⟨(dropLayers_spec hg w .template hμ).1, fun ls' h => by cases h⟩
     | true =>
       simp only [stepTemplate, if_true]
-      obtain ⟨e1, w1⟩ := replaceLayer_WL hinj hb w .template hμ t
-      rw [e1]
-      exact ⟨putBlob_step env st t, fun ls' h => by injection h with e; subst e; exact w1⟩
+      obtain ⟨s1, w1⟩ := replaceLayer_WL hinj hb hg w .template hμ (fun _ h => h) c (hc c true rfl)
+      exact ⟨s1, fun ls' h => by injection h with e; subst e; exact w1⟩
 
-theorem stepSystem_spec {env : Env} (hinj : HashInj env) {st : Store} {ls : List Layer} {μs : Media → Prop}
-    (hb : BlobsOk env st) (w : WL env st ls μs) (hμ : μs .system) (s : Option Bytes) :
+theorem stepSystem_spec {env : Env} (hinj : HashInj env) {st : Store} {base0 ls : List Layer}
+    {μs : Media → Prop} (hb : BlobsOk env st) (hg : Guard env st) (w : WL env st base0 ls μs)
+    (hμ : μs .system) (s : Option Bytes)
+    (hc : ∀ c, s = some c → Fresh env st ls (fun x => μs x ∧ x ≠ .system) c) :
     BlobStep env st (stepSystem env st ls s).1 ∧
-      WL env (stepSystem env st ls s).1 (stepSystem env st ls s).2 (fun x => μs x ∧ x ≠ .system) := by
+      WL env (stepSystem env st ls s).1 base0 (stepSystem env st ls s).2 (fun x => μs x ∧ x ≠ .system) := by
   cases s with
   | none =>
     simp only [stepSystem]
     exact ⟨BlobStep.refl env st, w.weaken (fun _ h => h.1)⟩
-  | some s =>
+  | some c =>
     simp only [stepSystem]
-    obtain ⟨e1, w1⟩ := replaceLayer_WL hinj hb w .system hμ s
-    rw [e1]
-    exact ⟨putBlob_step env st s, w1⟩
+    exact replaceLayer_WL hinj hb hg w .system hμ (fun _ h => h) c (hc c rfl)
 
-theorem stepParams_spec {env : Env} (hinj : HashInj env) {st : Store} {ls : List Layer} {μs : Media → Prop}
-    (hb : BlobsOk env st) (w : WL env st ls μs) (hμ : μs .params) (p : List (String × String)) :
+/-- `setLicense`: only appends -/
+theorem stepLicense_spec {env : Env} (hinj : HashInj env) (lics : List Bytes) {st : Store}
+    {base0 ls : List Layer} {μs : Media → Prop} (hb : BlobsOk env st) (w : WL env st base0 ls μs)
+    (hl : ¬ μs .license) (hc : ∀ c ∈ lics, Fresh env st ls μs c) :
+    BlobStep env st (stepLicense env st ls lics).1 ∧
+      WL env (stepLicense env st ls lics).1 base0 (stepLicense env st ls lics).2 μs := by
+  induction lics generalizing st ls with
+  | nil => exact ⟨BlobStep.refl env st, w⟩
+  | cons c t ih =>
+    simp only [stepLicense, newLayer]
+    have s1 := putBlob_step env st c
+    have w1 : WL env (putBlob env st c) base0 (ls ++ [⟨.license, ⟨.colon, env.hash c⟩, c.length⟩]) μs := by
+      refine ⟨?_, ?_, ?_, ?_⟩
+      · intro l hl'
+        simp only [List.mem_append, List.mem_singleton] at hl'
+        rcases hl' with hl' | hl'
+        · exact (w.complete l hl').putBlob c
+        · subst hl'; exact newLayer_complete hinj hb c .license
+      · intro l hl'
+        simp only [List.mem_append, List.mem_singleton] at hl'
+        rcases hl' with hl' | hl'
+        · exact w.gd l hl'
+        · subst hl'; exact Or.inr rfl
+      · intro a ha hm
+        simp only [List.mem_append, List.mem_singleton] at ha
+        rcases ha with ha | ha
+        · rw [inUse_congr s1.mans]
+          rcases w.safe a ha hm with hk | hu | hap
+          · exact Or.inl hk
+          · exact Or.inr (Or.inl hu)
+          · rcases hc c (by simp) a ha hm with hk | hu | hne
+            · exact Or.inl hk
+            · exact Or.inr (Or.inl hu)
+            · refine Or.inr (Or.inr (fun x hx hxm => ?_))
+              simp only [List.mem_append, List.mem_singleton] at hx
+              rcases hx with hx | hx
+              · exact hap x hx hxm
+              · subst hx; exact hne
+        · subst ha; exact absurd hm hl
+      · intro a ha hm
+        simp only [List.mem_append, List.mem_singleton] at ha
+        rcases ha with ha | ha
+        · exact w.orig a ha hm
+        · subst ha; exact absurd hm hl
+    have hc' : ∀ c' ∈ t, Fresh env (putBlob env st c) (ls ++ [⟨.license, ⟨.colon, env.hash c⟩, c.length⟩]) μs c' := by
+      intro c' hc' a ha hm
+      simp only [List.mem_append, List.mem_singleton] at ha
+      rcases ha with ha | ha
+      · rw [inUse_congr s1.mans]; exact hc c' (by simp [hc']) a ha hm
+      · subst ha; exact absurd hm hl
+    obtain ⟨s2, w2⟩ := ih (s1.blobsOk hb) w1 hc'
+    exact ⟨s1.trans s2, w2⟩
+
+theorem stepParams_spec {env : Env} (hinj : HashInj env) {st : Store} {base0 ls : List Layer}
+    {μs : Media → Prop} (hb : BlobsOk env st) (hg : Guard env st) (w : WL env st base0 ls μs)
+    (hμ : μs .params) (p : List (String × String)) :
     BlobStep env st (stepParams env st ls p).1 ∧
     ∀ ls', (stepParams env st ls p).2 = some ls' →
-      WL env (stepParams env st ls p).1 ls' (fun x => μs x ∧ x ≠ .params) := by
+      WL env (stepParams env st ls p).1 base0 ls' (fun _ => False) := by
   unfold stepParams
   split
   · exact ⟨BlobStep.refl env st, fun ls' h => by cases h⟩
-  · exact ⟨BlobStep.refl env st, fun ls' h => by injection h with e; subst e; exact w.weaken (fun _ h => h.1)⟩
+  · exact ⟨BlobStep.refl env st, fun ls' h => by injection h with e; subst e; exact w.weaken (fun _ h => h.elim)⟩
   · rename_i q _ _
-    obtain ⟨e1, w1⟩ := replaceLayer_WL hinj hb w .params hμ (encodeParams q)
+    obtain ⟨s1, w1⟩ := replaceLayer_WL (μs' := fun _ => False) hinj hb hg w .params hμ (fun _ h => h.elim)
+      (encodeParams q) (fun _ _ h => h.elim)
     simp only
-    rw [e1]
-    exact ⟨putBlob_step env st _, fun ls' h => by injection h with e; subst e; exact w1⟩
+    exact ⟨s1, fun ls' h => by injection h with e; subst e; exact w1⟩
 
-/-- what `createModel` does to the store: only `NewLayer` writes, then (on success) one manifest whose
-    layers are all complete -/
+/-- the contents `createModel` stores BEFORE it drops the layers of a media type -/
+def earlier (r : CreateReq) : Media → List Bytes
+  | .system => (r.template.map (·.1)).toList
+  | .params => (r.template.map (·.1)).toList ++ r.system.toList ++ r.licenses
+  | _ => []
+
+def μ3 : Media → Prop := fun x => x = .template ∨ x = .system ∨ x = .params
+
+/-- **The guard on a create request (pinned `removeLayer`, N2).**  Every layer of the starting list that
+    `createModel` may drop (template / system / params) is in use by a stored manifest, or its blob backs no
+    layer of another media type in the list and is not the blob of a text the request stores before the
+    drop.  Holds trivially when N2 is repaired, for every `from` create, and for files without a recognised
+    chat template. -/
+def Apart (env : Env) (st : Store) (ls : List Layer) (r : CreateReq) : Prop :=
+  ∀ a ∈ ls, μ3 a.media → env.v.fixKeep = true ∨ env.inUse st a.digest = true ∨
+    ((∀ x ∈ ls, x.media ≠ a.media → x.digest.key ≠ a.digest.key) ∧
+     ∀ c ∈ earlier r a.media, env.hash c ≠ a.digest.key)
+
+/-- what `createModel` does to the store: a `BlobStep`, then (on success) one manifest whose layers are all
+    complete -/
 theorem createModel_spec {env : Env} (hinj : HashInj env) {st : Store} (name : Name)
-    (base : List (Layer × Option Meta)) (r : CreateReq) (hb : BlobsOk env st)
-    (w : WL env st (base.map (·.1)) (fun x => x = .template ∨ x = .system ∨ x = .params)) :
+    (base : List (Layer × Option Meta)) (r : CreateReq) (hb : BlobsOk env st) (hg : Guard env st)
+    (hcomp : ∀ l ∈ base.map (·.1), Complete env st l) (hgd : ∀ l ∈ base.map (·.1), GD env l.digest)
+    (ha : Apart env st (base.map (·.1)) r) :
     ∃ st0, BlobStep env st st0 ∧
       (((createModel env st name base r).1 = st0 ∧ (createModel env st name base r).2.isSome = true) ∨
        (∃ m, (createModel env st name base r) = (setManifest st0 name (.readable m), none) ∧
           (∀ l ∈ m.all, GD env l.digest) ∧ ∀ l ∈ m.all, Complete env st0 l)) := by
+  have w : WL env st (base.map (·.1)) (base.map (·.1)) μ3 :=
+    ⟨hcomp, hgd, fun a h hm => (ha a h hm).imp id (fun h' => h'.imp id (fun h'' => h''.1)), fun a h _ => h⟩
+  -- the static part of the guard, for any later state with the same manifests
+  have fresh : ∀ (st' : Store) (ls : List Layer) (μs' : Media → Prop) (c : Bytes), st'.mans = st.mans →
+      (∀ a ∈ ls, μs' a.media → a ∈ base.map (·.1)) → (∀ x, μs' x → μ3 x ∧ c ∈ earlier r x) →
+      Fresh env st' ls μs' c := by
+    intro st' ls μs' c hm horig hμ a hal hma
+    rw [inUse_congr hm]
+    rcases ha a (horig a hal hma) (hμ _ hma).1 with hk | hu | hap
+    · exact Or.inl hk
+    · exact Or.inr (Or.inl hu)
+    · exact Or.inr (Or.inr (hap.2 c (hμ _ hma).2))
   unfold createModel
   simp only
-  obtain ⟨s1, w1⟩ := stepTemplate_spec hinj hb w (Or.inl rfl) r.template
+  obtain ⟨s1, w1⟩ := stepTemplate_spec hinj hb hg w (Or.inl rfl) r.template (fun c ok hc =>
+    fresh st _ _ c rfl (fun a h hm => w.orig a h hm.1) (fun x hx => ⟨hx.1, by
+      rcases hx.1 with h | h | h
+      · exact absurd h hx.2
+      · subst h; simp [earlier, hc]
+      · subst h; simp [earlier, hc]⟩))
   cases h1 : stepTemplate env st (base.map (·.1)) r.template with
   | mk st1 o1 =>
     rw [h1] at s1 w1
@@ -603,50 +785,71 @@ theorem createModel_spec {env : Env} (hinj : HashInj env) {st : Store} (name : N
       simp only
       have w1 := w1 l1 rfl
       have hb1 := s1.blobsOk hb
-      obtain ⟨s2, w2⟩ := stepSystem_spec hinj hb1 w1 ⟨Or.inr (Or.inl rfl), by decide⟩ r.system
+      have hg1 := s1.guard hg
+      obtain ⟨s2, w2⟩ := stepSystem_spec hinj hb1 hg1 w1 ⟨Or.inr (Or.inl rfl), by decide⟩ r.system (fun c hc =>
+        fresh st1 _ _ c s1.mans (fun a h hm => w1.orig a h hm.1) (fun x hx => ⟨hx.1.1, by
+          rcases hx.1.1 with h | h | h
+          · exact absurd h hx.1.2
+          · exact absurd h hx.2
+          · subst h; simp [earlier, hc]⟩))
       cases h2 : stepSystem env st1 l1 r.system with
-      | mk st2 l2 =>
+      | mk st2a l2a =>
         rw [h2] at s2 w2
         simp only at s2 w2
-        have hb2 := s2.blobsOk hb1
-        obtain ⟨s3, w3⟩ := stepParams_spec hinj hb2 w2 ⟨⟨Or.inr (Or.inr rfl), by decide⟩, by decide⟩ r.params
-        cases h3 : stepParams env st2 l2 r.params with
-        | mk st3 o3 =>
-          rw [h3] at s3 w3
-          simp only at s3 w3
-          cases o3 with
-          | none => exact ⟨st3, (s1.trans s2).trans s3, Or.inl ⟨rfl, rfl⟩⟩
-          | some l3 =>
-            simp only
-            have w3 := w3 l3 rfl
-            have hb3 := s3.blobsOk hb2
-            let cb := configJSON (base.filterMap (·.2)) (l3.map (·.digest))
-            refine ⟨putBlob env st3 cb, ((s1.trans s2).trans s3).trans (putBlob_step env st3 cb), Or.inr ?_⟩
-            refine ⟨⟨⟨.config, ⟨.colon, env.hash cb⟩, cb.length⟩, l3⟩, rfl, ?_, ?_⟩
-            · intro l hl
-              simp only [Manifest.all, List.mem_append, List.mem_singleton] at hl
-              rcases hl with hl | hl
-              · exact w3.gd l hl
-              · subst hl; exact Or.inr rfl
-            · intro l hl
-              simp only [Manifest.all, List.mem_append, List.mem_singleton] at hl
-              rcases hl with hl | hl
-              · exact (w3.complete l hl).putBlob cb
-              · subst hl; exact newLayer_complete hinj hb3 cb .config
+        have hb2a := s2.blobsOk hb1
+        obtain ⟨s2l, w2l⟩ := stepLicense_spec hinj r.licenses hb2a w2
+          (by intro h; rcases h.1.1 with h | h | h <;> cases h) (fun c hc =>
+          fresh st2a _ _ c (s2.mans.trans s1.mans) (fun a h hm => w2.orig a h hm) (fun x hx => ⟨hx.1.1, by
+            rcases hx.1.1 with h | h | h
+            · exact absurd h hx.1.2
+            · exact absurd h hx.2
+            · subst h; simp [earlier, hc]⟩))
+        cases h2l : stepLicense env st2a l2a r.licenses with
+        | mk st2 l2 =>
+          rw [h2l] at s2l w2l
+          simp only at s2l w2l
+          have hb2 := s2l.blobsOk hb2a
+          have hg2 := s2l.guard (s2.guard hg1)
+          obtain ⟨s3, w3⟩ := stepParams_spec hinj hb2 hg2 w2l ⟨⟨Or.inr (Or.inr rfl), by decide⟩, by decide⟩ r.params
+          cases h3 : stepParams env st2 l2 r.params with
+          | mk st3 o3 =>
+            rw [h3] at s3 w3
+            simp only at s3 w3
+            have s03 := ((s1.trans s2).trans s2l).trans s3
+            cases o3 with
+            | none => exact ⟨st3, s03, Or.inl ⟨rfl, rfl⟩⟩
+            | some l3 =>
+              simp only
+              have w3 := w3 l3 rfl
+              have hb3 := s3.blobsOk hb2
+              let cb := configJSON (base.filterMap (·.2)) (l3.map (·.digest))
+              refine ⟨putBlob env st3 cb, s03.trans (putBlob_step env st3 cb), Or.inr ?_⟩
+              refine ⟨⟨⟨.config, ⟨.colon, env.hash cb⟩, cb.length⟩, l3⟩, rfl, ?_, ?_⟩
+              · intro l hl
+                simp only [Manifest.all, List.mem_append, List.mem_singleton] at hl
+                rcases hl with hl | hl
+                · exact w3.gd l hl
+                · subst hl; exact Or.inr rfl
+              · intro l hl
+                simp only [Manifest.all, List.mem_append, List.mem_singleton] at hl
+                rcases hl with hl | hl
+                · exact (w3.complete l hl).putBlob cb
+                · subst hl; exact newLayer_complete hinj hb3 cb .config
+
 
 /-! ## base layers of a create request -/
 
-def μ3 : Media → Prop := fun x => x = .template ∨ x = .system ∨ x = .params
-
-theorem fromLayers_WL {env : Env} {st : Store} (hb : BlobsOk env st) (ls : List Layer)
+/-- layers taken from a readable source manifest: complete, admissible, and every one in use -/
+theorem fromLayers_spec {env : Env} {st : Store} (hb : BlobsOk env st) (ls : List Layer)
     (hcol : ∀ l ∈ ls, GD env l.digest) (href : ∀ l ∈ ls, st.referenced l.digest = true) :
-    ∀ b, fromLayers env st ls = some b → WL env st (b.map (·.1)) μ3 := by
+    ∀ b, fromLayers env st ls = some b →
+      ∀ x ∈ b.map (·.1), Complete env st x ∧ GD env x.digest ∧ env.inUse st x.digest = true := by
   induction ls with
   | nil =>
     intro b h
     simp only [fromLayers] at h
     injection h with e; subst e
-    exact ⟨by simp, by simp, by simp⟩
+    simp
   | cons l t ih =>
     intro b h
     have iht := ih (fun x hx => hcol x (by simp [hx])) (fun x hx => href x (by simp [hx]))
@@ -658,25 +861,14 @@ theorem fromLayers_WL {env : Env} {st : Store} (hb : BlobsOk env st) (ls : List 
       have hl' : Complete env st ⟨l.media, env.recorded l.digest, c.length⟩ :=
         ⟨c, by simpa [recorded_key] using hc, rfl, by rw [recorded_hex]; exact hb _ _ hc⟩
       have key : ∀ (mt : Option Meta) (r : List (Layer × Option Meta)), fromLayers env st t = some r →
-          WL env st (((⟨l.media, env.recorded l.digest, c.length⟩, mt) :: r).map (·.1)) μ3 := by
-        intro mt r hr
-        have w := iht r hr
-        refine ⟨?_, ?_, ?_⟩
-        · intro x hx
-          simp only [List.map_cons, List.mem_cons] at hx
-          rcases hx with hx | hx
-          · subst hx; exact hl'
-          · exact w.complete x hx
-        · intro x hx
-          simp only [List.map_cons, List.mem_cons] at hx
-          rcases hx with hx | hx
-          · subst hx; exact GD_recorded (hcol l (by simp))
-          · exact w.gd x hx
-        · intro x hx hm
-          simp only [List.map_cons, List.mem_cons] at hx
-          rcases hx with hx | hx
-          · subst hx; exact inUse_recorded (href l (by simp))
-          · exact w.ref x hx hm
+          ∀ x ∈ (((⟨l.media, env.recorded l.digest, c.length⟩, mt) :: r).map (·.1)),
+            Complete env st x ∧ GD env x.digest ∧ env.inUse st x.digest = true := by
+        intro mt r hr x hx
+        simp only [List.map_cons, List.mem_cons] at hx
+        rcases hx with hx | hx
+        · subst hx
+          exact ⟨hl', GD_recorded (hcol l (by simp)), inUse_recorded (href l (by simp))⟩
+        · exact iht r hr x hx
       split at h
       · cases hg : env.gguf c with
         | none => simp [hg] at h
@@ -695,101 +887,142 @@ theorem fromLayers_WL {env : Env} {st : Store} (hb : BlobsOk env st) (ls : List 
           injection h with e; subst e
           exact key _ r hr
 
-theorem fileLayers_WL {env : Env} {st : Store} (hb : BlobsOk env st) (ds : List Digest)
+theorem autoLayers_spec {env : Env} (hinj : HashInj env) {st : Store} (hb : BlobsOk env st) (mt : Meta) :
+    BlobStep env st (autoLayers env st mt).1 ∧
+    (∀ l, Complete env st l → Complete env (autoLayers env st mt).1 l) ∧
+    ∀ x ∈ (autoLayers env st mt).2.map (·.1), Complete env (autoLayers env st mt).1 x ∧ GD env x.digest := by
+  unfold autoLayers
+  cases mt.auto with
+  | none => exact ⟨BlobStep.refl env st, fun _ h => h, by simp⟩
+  | some tp =>
+    obtain ⟨t, p⟩ := tp
+    cases p with
+    | none =>
+      simp only [newLayer]
+      refine ⟨putBlob_step env st t, fun _ h => h.putBlob t, ?_⟩
+      intro x hx
+      simp only [List.map_cons, List.map_nil, List.mem_singleton] at hx
+      subst hx
+      exact ⟨newLayer_complete hinj hb t .template, Or.inr rfl⟩
+    | some q =>
+      simp only [newLayer]
+      have s1 := putBlob_step env st t
+      have hb1 := s1.blobsOk hb
+      refine ⟨s1.trans (putBlob_step env _ q), fun _ h => (h.putBlob t).putBlob q, ?_⟩
+      intro x hx
+      simp only [List.map_cons, List.map_nil, List.mem_cons, List.not_mem_nil, or_false] at hx
+      rcases hx with hx | hx
+      · subst hx; exact ⟨(newLayer_complete hinj hb t .template).putBlob q, Or.inr rfl⟩
+      · subst hx; exact ⟨newLayer_complete hinj hb1 q .params, Or.inr rfl⟩
+
+/-- `ggufLayers` over the request's files: only `NewLayer` writes; on success every layer is complete -/
+theorem fileLayers_spec {env : Env} (hinj : HashInj env) (ds : List Digest) {st : Store} (hb : BlobsOk env st)
     (hcol : ∀ d ∈ ds, GD env d) :
-    ∀ b, fileLayers env st ds = .ok b → WL env st (b.map (·.1)) μ3 := by
-  induction ds with
+    BlobStep env st (fileLayers env st ds).1 ∧
+    (∀ l, Complete env st l → Complete env (fileLayers env st ds).1 l) ∧
+    ∀ b, (fileLayers env st ds).2 = .ok b →
+      ∀ x ∈ b.map (·.1), Complete env (fileLayers env st ds).1 x ∧ GD env x.digest := by
+  induction ds generalizing st with
   | nil =>
-    intro b h
-    simp only [fileLayers] at h
-    injection h with e; subst e
-    exact ⟨by simp, by simp, by simp⟩
+    simp only [fileLayers]
+    refine ⟨BlobStep.refl env st, fun _ h => h, ?_⟩
+    intro b h; injection h with e; subst e; simp
   | cons d t ih =>
-    intro b h
-    have iht := ih (fun x hx => hcol x (by simp [hx]))
-    simp only [fileLayers] at h
+    simp only [fileLayers]
     cases hc : st.blob d.key with
-    | none => simp [hc] at h
+    | none => exact ⟨BlobStep.refl env st, fun _ h => h, fun b h => by cases h⟩
     | some c =>
-      simp only [hc] at h
+      simp only
       cases hg : env.gguf c with
-      | none => simp [hg] at h
+      | none => exact ⟨BlobStep.refl env st, fun _ h => h, fun b h => by cases h⟩
       | some mt =>
-        simp only [hg] at h
-        cases hr : fileLayers env st t with
-        | error e => simp [hr] at h
-        | ok r =>
-          simp only [hr] at h
-          injection h with e; subst e
-          have w := iht r hr
-          refine ⟨?_, ?_, ?_⟩
-          · intro x hx
-            simp only [List.map_cons, List.mem_cons] at hx
-            rcases hx with hx | hx
-            · subst hx
-              exact ⟨c, by simpa [recorded_key] using hc, rfl, by rw [recorded_hex]; exact hb _ _ hc⟩
-            · exact w.complete x hx
-          · intro x hx
-            simp only [List.map_cons, List.mem_cons] at hx
-            rcases hx with hx | hx
-            · subst hx; exact GD_recorded (hcol d (by simp))
-            · exact w.gd x hx
-          · intro x hx hm
-            simp only [List.map_cons, List.mem_cons] at hx
-            rcases hx with hx | hx
-            · subst hx
-              rcases hm with hm | hm | hm <;> cases hm
-            · exact w.ref x hx hm
+        simp only
+        obtain ⟨sa, ma, ca⟩ := autoLayers_spec hinj hb mt
+        cases hal : autoLayers env st mt with
+        | mk st1 auto =>
+          rw [hal] at sa ma ca
+          simp only at sa ma ca ⊢
+          obtain ⟨sr, mr, cr⟩ := ih (st := st1) (sa.blobsOk hb) (fun x hx => hcol x (by simp [hx]))
+          cases hfl : fileLayers env st1 t with
+          | mk st2 res =>
+            rw [hfl] at sr mr cr
+            simp only at sr mr cr
+            cases res with
+            | error e => exact ⟨sa.trans sr, fun l h => mr l (ma l h), fun b h => by cases h⟩
+            | ok r =>
+              simp only
+              refine ⟨sa.trans sr, fun l h => mr l (ma l h), ?_⟩
+              intro b h
+              injection h with e; subst e
+              intro x hx
+              simp only [List.map_append, List.map_cons, List.mem_append, List.mem_cons] at hx
+              rcases hx with (hx | hx) | hx
+              · subst hx
+                have : Complete env st ⟨.model, env.recorded d, c.length⟩ :=
+                  ⟨c, by simpa [recorded_key] using hc, rfl, by rw [recorded_hex]; exact hb _ _ hc⟩
+                exact ⟨mr _ (ma _ this), GD_recorded (hcol d (by simp))⟩
+              · exact ⟨mr _ (ca x hx).1, (ca x hx).2⟩
+              · exact cr r rfl x hx
 
-theorem WL.nil (env : Env) (st : Store) (μs : Media → Prop) : WL env st [] μs :=
-  ⟨by simp, by simp, by simp⟩
-
-theorem baseLayers_WL {env : Env} {st : Store} (hc : Guard env st) (hb : BlobsOk env st) (r : CreateReq)
-    (hf : ∀ d ∈ r.files, GD env d) (frev : Bool) :
-    ∀ b, (baseLayers env st r frev).1 = some b → WL env st (b.map (·.1)) μ3 := by
-  intro b h
-  unfold baseLayers at h
+/-- base layers: a `BlobStep` (only the auto-detected layers are written); on success all complete and
+    admissible; for a `from` create every base layer is in use -/
+theorem baseLayers_spec {env : Env} (hinj : HashInj env) {st : Store} (hc : Guard env st) (hb : BlobsOk env st)
+    (r : CreateReq) (hf : ∀ d ∈ r.files, GD env d) (frev : Bool) :
+    BlobStep env st (baseLayers env st r frev).1 ∧
+    ∀ b, (baseLayers env st r frev).2.1 = some b →
+      (∀ x ∈ b.map (·.1), Complete env (baseLayers env st r frev).1 x ∧ GD env x.digest) ∧
+      (r.src.isSome = true → ∀ x ∈ b.map (·.1), env.inUse (baseLayers env st r frev).1 x.digest = true) := by
+  unfold baseLayers
   have onErr : ∀ b, (if env.v.fixReturn = true then (none : Option (List (Layer × Option Meta))) else some []) = some b →
-      WL env st (b.map (·.1)) μ3 := by
+      b = [] := by
     intro b h
     split at h
     · cases h
-    · injection h with e; subst e; exact WL.nil _ _ _
+    · injection h with e; exact e.symm
   cases hs : r.src with
   | some f =>
-    simp only [hs] at h
+    simp only
     cases hm : st.readableAt f with
     | none =>
-      simp only [hm] at h
-      exact onErr b h
+      simp only
+      refine ⟨BlobStep.refl env st, fun b h => ?_⟩
+      have := onErr b h; subst this; simp
     | some m =>
-      simp only [hm] at h
+      simp only
       have hm' := readableAt_eq_some.mp hm
       cases hfl : fromLayers env st m.layers with
       | none =>
-        simp only [hfl] at h
-        exact onErr b h
+        simp only
+        refine ⟨BlobStep.refl env st, fun b h => ?_⟩
+        have := onErr b h; subst this; simp
       | some b' =>
-        simp only [hfl] at h
+        simp only
+        refine ⟨BlobStep.refl env st, fun b h => ?_⟩
         injection h with e; subst e
-        refine fromLayers_WL hb m.layers ?_ ?_ b' hfl
-        · intro l hl; exact hc.gd hm' (by simp [Manifest.all, hl])
-        · intro l hl
-          exact referenced_iff.mpr ⟨f, m, hm', l, by simp [Manifest.all, hl], rfl⟩
+        have := fromLayers_spec hb m.layers (fun l hl => hc.gd hm' (by simp [Manifest.all, hl]))
+          (fun l hl => referenced_iff.mpr ⟨f, m, hm', l, by simp [Manifest.all, hl], rfl⟩) b' hfl
+        exact ⟨fun x hx => ⟨(this x hx).1, (this x hx).2.1⟩, fun _ x hx => (this x hx).2.2⟩
   | none =>
-    simp only [hs] at h
-    split at h
-    · cases h
-    · cases hfl : fileLayers env st (if frev = true then r.files.reverse else r.files) with
-      | error e => simp [hfl] at h
-      | ok b' =>
-        simp only [hfl] at h
-        injection h with e; subst e
-        refine fileLayers_WL hb _ ?_ b' hfl
+    simp only
+    split
+    · exact ⟨BlobStep.refl env st, fun b h => by cases h⟩
+    · have hcol : ∀ d ∈ (if frev = true then r.files.reverse else r.files), GD env d := by
         intro d hd
         cases frev with
         | true => exact hf d (by simpa using hd)
         | false => exact hf d (by simpa using hd)
+      obtain ⟨s1, _, c1⟩ := fileLayers_spec hinj _ hb hcol
+      cases hfl : fileLayers env st (if frev = true then r.files.reverse else r.files) with
+      | mk st' res =>
+        rw [hfl] at s1 c1
+        simp only at s1 c1
+        cases res with
+        | error e => exact ⟨s1, fun b h => by cases h⟩
+        | ok b' =>
+          simp only
+          refine ⟨s1, fun b h => ?_⟩
+          injection h with e; subst e
+          exact ⟨c1 b' rfl, fun h => by cases h⟩
 
 /-! ## `Good`: invariant preservation + frame, per operation -/
 
@@ -902,24 +1135,45 @@ theorem pruneStartup_good {env : Env} {st : Store} (hb : BlobsOk env st) (hc : G
   · exact Good.refl hb hc _
   · exact Good.ofBlobStep (pruneLayers_step env hc) hb hc _
 
-/-- a create that does not end in the success event only added (correctly named) blobs -/
+/-- a `from` create meets the guard `Apart` by itself: every base layer is in use by the source manifest -/
+theorem apart_of_inUse {env : Env} {st : Store} {ls : List Layer} (r : CreateReq)
+    (h : ∀ x ∈ ls, env.inUse st x.digest = true) : Apart env st ls r :=
+  fun a ha _ => Or.inr (Or.inl (h a ha))
+
+theorem apart_of_fixKeep {env : Env} (hv : env.v.fixKeep = true) (st : Store) (ls : List Layer) (r : CreateReq) :
+    Apart env st ls r := fun _ _ _ => Or.inl hv
+
+/-- the guard of a create request, stated on what `baseLayers` returns -/
+def ApartReq (env : Env) (st : Store) (r : CreateReq) (frev : Bool) : Prop :=
+  ∀ b, (baseLayers env st r frev).2.1 = some b → Apart env (baseLayers env st r frev).1 (b.map (·.1)) r
+
+/-- `Good` for create; and a create that does not end in the success event is a `BlobStep` -/
 theorem createAt_good {env : Env} (hinj : HashInj env) {st : Store} (hb : BlobsOk env st) (hc : Guard env st)
-    (r : CreateReq) (hf : ∀ d ∈ r.files, GD env d) (name : Name) (frev : Bool) :
+    (r : CreateReq) (hf : ∀ d ∈ r.files, GD env d) (name : Name) (frev : Bool)
+    (hap : ApartReq env st r frev) :
     Good env st (createAt env st r name frev).1 [name] ∧
     ("s" ∉ (createAt env st r name frev).2 → BlobStep env st (createAt env st r name frev).1) := by
+  obtain ⟨sb, cb⟩ := baseLayers_spec hinj hc hb r hf frev
+  unfold ApartReq at hap
   unfold createAt
   simp only
   cases hbl : baseLayers env st r frev with
-  | mk ob ev =>
+  | mk stb rest =>
+    obtain ⟨ob, ev⟩ := rest
+    rw [hbl] at sb cb hap
+    simp only at sb cb hap
+    have gb : Good env st stb [name] := Good.ofBlobStep sb hb hc _
     cases ob with
-    | none => exact ⟨Good.refl hb hc _, fun _ => BlobStep.refl env st⟩
+    | none => exact ⟨gb, fun _ => sb⟩
     | some base =>
       simp only
-      have w := baseLayers_WL hc hb r hf frev base (by rw [hbl])
-      obtain ⟨st0, s0, h⟩ := createModel_spec hinj name base r hb w
+      obtain ⟨cbase, _⟩ := cb base rfl
+      obtain ⟨st0, s0', h⟩ := createModel_spec hinj name base r gb.blobsOk gb.canon
+        (fun l hl => (cbase l hl).1) (fun l hl => (cbase l hl).2) (hap base rfl)
+      have s0 := sb.trans s0'
       have g0 : Good env st st0 [name] := Good.ofBlobStep s0 hb hc _
       rcases h with ⟨e1, e2⟩ | ⟨m, e, hcm, hcomp⟩
-      · cases hcm : createModel env st name base r with
+      · cases hcm : createModel env stb name base r with
         | mk st1 o =>
           rw [hcm] at e1 e2
           simp only at e1 e2
@@ -952,17 +1206,6 @@ def targets (env : Env) (st : Store) (op : Op) (ch : Choice) : List Name :=
 
 /-! ## manifests are only ever changed at the target name (no guard needed) -/
 
-theorem layerRemove_mans (env : Env) (st : Store) (d : Digest) : (layerRemove env st d).mans = st.mans := by
-  unfold layerRemove; split <;> rfl
-
-theorem removeLayers_mans (env : Env) (ls : List Layer) (st : Store) : (removeLayers env st ls).mans = st.mans := by
-  induction ls generalizing st with
-  | nil => rfl
-  | cons l t ih =>
-    unfold removeLayers
-    simp only [List.foldl]
-    exact (ih (layerRemove env st l.digest)).trans (layerRemove_mans env st l.digest)
-
 theorem replaceLayer_mans (env : Env) (st : Store) (ls : List Layer) (media : Media) (c : Bytes) :
     (replaceLayer env st ls media c).1.mans = st.mans := by
   unfold replaceLayer newLayer
@@ -993,6 +1236,70 @@ theorem stepParams_mans (env : Env) (st : Store) (ls : List Layer) (p : List (St
   · rfl
   · exact replaceLayer_mans _ _ _ _ _
 
+theorem stepLicense_mans (env : Env) (lics : List Bytes) (st : Store) (ls : List Layer) :
+    (stepLicense env st ls lics).1.mans = st.mans := by
+  induction lics generalizing st ls with
+  | nil => rfl
+  | cons c t ih =>
+    simp only [stepLicense, newLayer]
+    rw [ih, putBlob_mans]
+
+theorem autoLayers_mans (env : Env) (st : Store) (mt : Meta) : (autoLayers env st mt).1.mans = st.mans := by
+  unfold autoLayers
+  cases mt.auto with
+  | none => rfl
+  | some tp =>
+    obtain ⟨t, p⟩ := tp
+    cases p with
+    | none => simp only [newLayer, putBlob_mans]
+    | some q => simp only [newLayer, putBlob_mans]
+
+theorem fileLayers_mans (env : Env) (ds : List Digest) (st : Store) : (fileLayers env st ds).1.mans = st.mans := by
+  induction ds generalizing st with
+  | nil => rfl
+  | cons d t ih =>
+    simp only [fileLayers]
+    cases st.blob d.key with
+    | none => rfl
+    | some c =>
+      simp only
+      cases hg : env.gguf c with
+      | none => rfl
+      | some mt =>
+        simp only
+        have h1 := autoLayers_mans env st mt
+        cases hal : autoLayers env st mt with
+        | mk st1 auto =>
+          rw [hal] at h1
+          simp only at h1 ⊢
+          have h2 := ih st1
+          cases hfl : fileLayers env st1 t with
+          | mk st2 res =>
+            rw [hfl] at h2
+            simp only at h2
+            cases res <;> exact h2.trans h1
+
+theorem baseLayers_mans (env : Env) (st : Store) (r : CreateReq) (frev : Bool) :
+    (baseLayers env st r frev).1.mans = st.mans := by
+  unfold baseLayers
+  cases r.src with
+  | some f =>
+    simp only
+    cases st.readableAt f with
+    | none => rfl
+    | some m =>
+      simp only
+      cases fromLayers env st m.layers <;> rfl
+  | none =>
+    simp only
+    split
+    · rfl
+    · have h := fileLayers_mans env (if frev = true then r.files.reverse else r.files) st
+      cases hfl : fileLayers env st (if frev = true then r.files.reverse else r.files) with
+      | mk st' res =>
+        rw [hfl] at h
+        cases res <;> exact h
+
 theorem createModel_mans (env : Env) (st : Store) (name : Name) (base : List (Layer × Option Meta))
     (r : CreateReq) :
     (createModel env st name base r).1.mans = st.mans ∨
@@ -1009,33 +1316,43 @@ theorem createModel_mans (env : Env) (st : Store) (name : Name) (base : List (La
       simp only
       have e2 := stepSystem_mans env st1 l1 r.system
       cases h2 : stepSystem env st1 l1 r.system with
-      | mk st2 l2 =>
-        rw [h2] at e2; simp only at e2
-        have e3 := stepParams_mans env st2 l2 r.params
-        cases h3 : stepParams env st2 l2 r.params with
-        | mk st3 o3 =>
-          rw [h3] at e3; simp only at e3
-          cases o3 with
-          | none => exact Or.inl (e3.trans (e2.trans e1))
-          | some l3 =>
-            simp only
-            refine Or.inr ⟨⟨(newLayer env st3 (configJSON (base.filterMap (·.2)) (l3.map (·.digest))) .config).2, l3⟩, ?_⟩
-            simp only [setManifest, newLayer, putBlob_mans]
-            rw [e3, e2, e1]
+      | mk st2a l2a =>
+        rw [h2] at e2; simp only at e2 ⊢
+        have e2l := stepLicense_mans env r.licenses st2a l2a
+        cases h2l : stepLicense env st2a l2a r.licenses with
+        | mk st2 l2 =>
+          rw [h2l] at e2l; simp only at e2l ⊢
+          have e3 := stepParams_mans env st2 l2 r.params
+          cases h3 : stepParams env st2 l2 r.params with
+          | mk st3 o3 =>
+            rw [h3] at e3; simp only at e3
+            have e03 : st3.mans = st.mans := e3.trans (e2l.trans (e2.trans e1))
+            cases o3 with
+            | none => exact Or.inl e03
+            | some l3 =>
+              simp only
+              refine Or.inr ⟨⟨(newLayer env st3 (configJSON (base.filterMap (·.2)) (l3.map (·.digest))) .config).2, l3⟩, ?_⟩
+              simp only [setManifest, newLayer, putBlob_mans]
+              rw [e03]
 
 theorem createAt_mans (env : Env) (st : Store) (r : CreateReq) (name : Name) (frev : Bool) :
     (createAt env st r name frev).1.mans = st.mans ∨
     ∃ m, (createAt env st r name frev).1.mans = aset st.mans name (.readable m) := by
+  have hbm := baseLayers_mans env st r frev
   unfold createAt
   simp only
   cases hbl : baseLayers env st r frev with
-  | mk ob ev =>
+  | mk stb rest =>
+    obtain ⟨ob, ev⟩ := rest
+    rw [hbl] at hbm
+    simp only at hbm
     cases ob with
-    | none => exact Or.inl rfl
+    | none => exact Or.inl hbm
     | some base =>
       simp only
-      have h := createModel_mans env st name base r
-      cases hcm : createModel env st name base r with
+      have h := createModel_mans env stb name base r
+      rw [hbm] at h
+      cases hcm : createModel env stb name base r with
       | mk st1 o =>
         rw [hcm] at h; simp only at h
         cases o with
@@ -1304,26 +1621,36 @@ theorem getExistingNameFixed_spec (es : List Name) (n : Name) :
 
 /-! ## events of a create request with N1 repaired -/
 
-theorem fileLayers_err {env : Env} {st : Store} (ds : List Digest) (e : String)
-    (h : fileLayers env st ds = .error e) : e ≠ "s" := by
-  induction ds with
+theorem fileLayers_err {env : Env} (ds : List Digest) {st : Store} (e : String)
+    (h : (fileLayers env st ds).2 = .error e) : e ≠ "s" := by
+  induction ds generalizing st with
   | nil => simp [fileLayers] at h
   | cons d t ih =>
     simp only [fileLayers] at h
-    split at h
-    · injection h with h; subst h; decide
-    · split at h
-      · injection h with h; subst h; decide
-      · split at h
-        · rename_i e' he'
-          injection h with h; subst h
-          exact ih he'
-        · cases h
+    cases hb : st.blob d.key with
+    | none => rw [hb] at h; simp only at h; injection h with h; subst h; decide
+    | some c =>
+      rw [hb] at h; simp only at h
+      cases hg : env.gguf c with
+      | none => rw [hg] at h; simp only at h; injection h with h; subst h; decide
+      | some mt =>
+        rw [hg] at h; simp only at h
+        cases hal : autoLayers env st mt with
+        | mk st1 auto =>
+          rw [hal] at h; simp only at h
+          cases hfl : fileLayers env st1 t with
+          | mk st2 res =>
+            rw [hfl] at h
+            cases res with
+            | error e' =>
+              injection h with h; subst h
+              exact ih (st := st1) (by rw [hfl])
+            | ok r => cases h
 
 /-- with N1 repaired, base layers come without any error event; without base layers there is no success -/
 theorem baseLayers_events {env : Env} (hv : env.v.fixReturn = true) (st : Store) (r : CreateReq) (frev : Bool) :
-    ((baseLayers env st r frev).1.isSome = true → (baseLayers env st r frev).2 = []) ∧
-    ((baseLayers env st r frev).1 = none → "s" ∉ (baseLayers env st r frev).2) := by
+    ((baseLayers env st r frev).2.1.isSome = true → (baseLayers env st r frev).2.2 = []) ∧
+    ((baseLayers env st r frev).2.1 = none → "s" ∉ (baseLayers env st r frev).2.2) := by
   unfold baseLayers
   simp only [hv, if_true]
   cases r.src with
@@ -1341,12 +1668,14 @@ theorem baseLayers_events {env : Env} (hv : env.v.fixReturn = true) (st : Store)
     split
     · simp
     · cases hfl : fileLayers env st (if frev = true then r.files.reverse else r.files) with
-      | error e =>
-        simp only
-        refine ⟨by simp, fun _ => ?_⟩
-        simp only [List.mem_singleton]
-        exact fun h => fileLayers_err _ e hfl h.symm
-      | ok b => simp
+      | mk st' res =>
+        cases res with
+        | error e =>
+          simp only
+          refine ⟨by simp, fun _ => ?_⟩
+          simp only [List.mem_singleton]
+          exact fun h => fileLayers_err _ e (by rw [hfl]) h.symm
+        | ok b => simp
 
 theorem createModel_err {env : Env} {st : Store} {name : Name} {base : List (Layer × Option Meta)}
     {r : CreateReq} {e : String} (h : (createModel env st name base r).2 = some e) : e ≠ "s" := by
@@ -1366,7 +1695,8 @@ theorem createAt_events_fixed {env : Env} (hv : env.v.fixReturn = true) (st : St
   unfold createAt
   simp only
   cases hbl : baseLayers env st r frev with
-  | mk ob ev =>
+  | mk stb rest =>
+    obtain ⟨ob, ev⟩ := rest
     rw [hbl] at h1 h2
     simp only at h1 h2
     cases ob with
@@ -1375,7 +1705,7 @@ theorem createAt_events_fixed {env : Env} (hv : env.v.fixReturn = true) (st : St
       simp only
       have hev : ev = [] := h1 rfl
       subst hev
-      cases hcm : createModel env st name base r with
+      cases hcm : createModel env stb name base r with
       | mk st1 o =>
         cases o with
         | some err =>
